@@ -19,6 +19,8 @@ type c39G struct {
 	pending  []int // forwarded indices not yet delivered, in source order
 	all      []int // every forwarded index
 	done     []int // forwarded indices already handed to a delivery
+	dropped  map[int]bool // live forward lost: only the outbox has it
+	acked    map[int]bool
 	keyOf    map[int]int
 	val      int
 	started  bool
@@ -50,7 +52,32 @@ func (x *c39G) w() {
 	default:
 		x.g.Count("w:before-start")
 	}
+	if x.started && !x.fenced && !x.switched && x.g.R.Chance(18) {
+		x.dropped[x.idx] = true
+		x.g.Count("w:forward-dropped")
+		x.g.Op("wd", "%d %d", k, x.val)
+		return
+	}
 	x.g.Op("w", "%d %d", k, x.val)
+}
+
+// ack acknowledges a delivered row, often out of order (a later row before an earlier undelivered one).
+func (x *c39G) ack() {
+	r := x.g.R
+	i := r.Range(0, 3)
+	if len(x.done) > 0 {
+		i = x.done[r.Intn(len(x.done))]
+		if len(x.pending) > 0 && i > x.pending[0] {
+			x.g.Count("ack:later-row-while-earlier-undelivered")
+		}
+		x.acked[i] = true
+	}
+	if r.Chance(65) {
+		x.idx++ // the replicated ack consumes a source log index
+		x.g.Op("ackc", "%d", i)
+		return
+	}
+	x.g.Op("ack", "%d", i)
 }
 
 func (x *c39G) deliver() {
@@ -112,7 +139,30 @@ func (x *c39G) deliver() {
 	if !x.snapped {
 		x.g.Count("dl:before-snapshot(skip)")
 	}
-	x.g.Op("dl", "%s", strings.Join(is, " "))
+	kind := []string{"dl", "dl", "dlo", "dlm"}[r.Intn(4)]
+	for _, v := range is {
+		var n int
+		fmt.Sscan(v, &n)
+		if x.dropped[n] {
+			kind = "dlo" // only the durable outbox has it
+		}
+	}
+	if kind == "dlo" {
+		for _, v := range is {
+			var n int
+			fmt.Sscan(v, &n)
+			if x.acked[n] {
+				x.g.Count("dlo:acked-row(norow)")
+			}
+		}
+	}
+	switch kind {
+	case "dlm":
+		x.g.Count("dl:mixed-batch-with-stale-command")
+		x.g.Op("dlm", "%d %s", r.Intn(2), strings.Join(is, " "))
+	default:
+		x.g.Op(kind, "%s", strings.Join(is, " "))
+	}
 }
 
 func (x *c39G) misc() {
@@ -123,11 +173,7 @@ func (x *c39G) misc() {
 	case 1:
 		x.g.Op("rs", "")
 	case 2:
-		if len(x.all) > 0 {
-			x.g.Op("ack", "%d", x.all[r.Intn(len(x.all))])
-		} else {
-			x.g.Op("ack", "%d", r.Range(0, 3))
-		}
+		x.ack()
 	case 3:
 		x.val++
 		x.g.Op("wt", "%d %d", r.Range(1, 4), x.val)
@@ -145,15 +191,24 @@ func (x *c39G) misc() {
 			x.g.Count("switch:premature-or-repeated")
 		}
 	default:
-		x.g.Op([]string{"start", "snap", "fence"}[r.Intn(3)], "")
+		op := []string{"start", "snap", "fence"}[r.Intn(3)]
+		x.g.Op(op, "")
 		x.g.Count("protocol-op:out-of-place")
+		if op == "fence" {
+			x.idx++
+			if x.started && !x.fenced && !x.switched {
+				x.fenced = true
+				x.pending = append(x.pending, x.idx)
+				x.all = append(x.all, x.idx)
+			}
+		}
 	}
 }
 
 func genC39(g *Gen) {
 	for c := 0; c < g.N; c++ {
 		g.Case()
-		x := &c39G{g: g, keyOf: map[int]int{}}
+		x := &c39G{g: g, keyOf: map[int]int{}, dropped: map[int]bool{}, acked: map[int]bool{}}
 		r := g.R
 		burst := func(lo, hi int, f func()) {
 			for n := r.Range(lo, hi); n > 0; n-- {
@@ -173,10 +228,13 @@ func genC39(g *Gen) {
 		g.Op("snap", "")
 		x.snapped = true
 		burst(2, 9, func() {
-			if r.Chance(50) {
+			switch r.Pick(45, 40, 15) {
+			case 0:
 				x.w()
-			} else {
+			case 1:
 				x.deliver()
+			default:
+				x.ack()
 			}
 		})
 		if r.Chance(85) {
@@ -189,11 +247,13 @@ func genC39(g *Gen) {
 			}
 		}
 		burst(1, 8, func() {
-			switch r.Pick(60, 20, 20) {
+			switch r.Pick(50, 15, 15, 20) {
 			case 0:
 				x.deliver()
 			case 1:
 				x.w()
+			case 2:
+				x.ack()
 			default:
 				x.misc()
 			}
